@@ -3,7 +3,8 @@
 (* template; every header row up to MaxWidth over the header vocabulary.     *)
 EXTENDS Format
 
-CONSTANTS MaxWidth
+CONSTANTS MaxWidth,
+          HeaderWidth    \* header rows over the PLAIN classes are explored to this (larger) width: real statements have many columns
 
 Tokens == { [k |-> "date", fmt |-> ""], [k |-> "date", fmt |-> "f2"], [k |-> "description"],
             [k |-> "amount", sign |-> ""], [k |-> "amount", sign |-> "-"], [k |-> "amount", sign |-> "+"],
@@ -15,14 +16,17 @@ Templates == {NoT, T({}), T({"ca"}), T({"ca", "cb"}), T({"cz"})}
 \* header classes: which detection patterns the header text matches
 Headers == { {"date"}, {"desc"}, {"amount"}, {"loc"}, {}, {"date", "amount"}, {"desc", "loc"}, {"amount", "loc"}, {"date", "desc"} }
 
+PlainHeaders == { {"date"}, {"desc"}, {"amount"}, {"loc"}, {} }
+
 VARIABLES mode, toks, tmpl, out
 vars == <<mode, toks, tmpl, out>>
 
 Init == \/ /\ mode = "format" /\ toks = <<>> /\ tmpl \in Templates /\ out = ParseFormat(toks, tmpl)
         \/ /\ mode = "headers" /\ toks = <<>> /\ tmpl = NoT /\ out = DetectHeaders(toks)
-Extend == /\ Len(toks) < MaxWidth
-          /\ \/ mode = "format" /\ \E t \in Tokens : toks' = Append(toks, t) /\ out' = ParseFormat(toks', tmpl)
-             \/ mode = "headers" /\ \E h \in Headers : toks' = Append(toks, h) /\ out' = DetectHeaders(toks')
+        \/ /\ mode = "wide" /\ toks = <<>> /\ tmpl = NoT /\ out = DetectHeaders(toks)
+Extend == /\ \/ mode = "format" /\ Len(toks) < MaxWidth /\ \E t \in Tokens : toks' = Append(toks, t) /\ out' = ParseFormat(toks', tmpl)
+             \/ mode = "headers" /\ Len(toks) < MaxWidth /\ \E h \in Headers : toks' = Append(toks, h) /\ out' = DetectHeaders(toks')
+             \/ mode = "wide" /\ Len(toks) < HeaderWidth /\ \E h \in PlainHeaders : toks' = Append(toks, h) /\ out' = DetectHeaders(toks')
           /\ UNCHANGED <<mode, tmpl>>
 Next == Extend
 Spec == Init /\ [][Next]_vars
@@ -31,6 +35,6 @@ Inv_PositionBijection == mode = "format" => PositionBijection(toks, tmpl)
 Inv_RejectsMissing == mode = "format" => RejectsMissing(toks, tmpl)
 Inv_RejectsDuplicate == mode = "format" => RejectsDuplicate(toks, tmpl)
 Inv_RejectsUncapturedTemplateRef == mode = "format" => RejectsUncapturedTemplateRef(toks, tmpl)
-Inv_SuggestRoundTrips == mode = "headers" => SuggestRoundTrips(toks)
+Inv_SuggestRoundTrips == mode \in {"headers", "wide"} => SuggestRoundTrips(toks)
 Neg_AlwaysAccepts == mode = "format" /\ Len(toks) >= 3 => ~out.err
 =============================================================================
